@@ -82,11 +82,26 @@ def main():
         with ThreadPoolExecutor(max_workers=min(nshards, os.cpu_count() or 4)) as ex:
             futs = [ex.submit(run_worker, check, a.tier, a.seed, s, nshards, td, timeout) for s in range(nshards)]
             dumps = [f.result() for f in futs]
-    for d in dumps:
-        if "error" in d:
-            problems.append(d["error"])
-    good = [d for d in dumps if "error" not in d]
+            for d in dumps:
+                if "error" in d:
+                    problems.append(d["error"])
+            good = [d for d in dumps if "error" not in d]
+            nt_files = [d["nontrivial_file"] for d in good if d.get("nontrivial_file")]
+            nt_count = None
+            if nt_files:
+                # union of the distinct-case hashes of all shards, counted out of core
+                inline = os.path.join(td, "inline.nt")
+                with open(inline, "w") as f:
+                    for d in good:
+                        if d["nontrivial"]:
+                            f.write("\n".join(d["nontrivial"]) + "\n")
+                        d["nontrivial"] = []
+                p = subprocess.run("cat " + " ".join(nt_files + [inline]) + " | LC_ALL=C sort -u -S 2G | wc -l", shell=True,
+                                   capture_output=True, text=True)
+                nt_count = int(p.stdout.strip() or 0)
     merged = verdict.merge(good) if good else None
+    if merged is not None and nt_count is not None:
+        merged["nontrivial"] = range(nt_count)  # only its length is used from here on
     if merged is not None:
         merged["reach"] = merge_reach(good)
         merged["raised"] = merge_raised(good)
